@@ -192,16 +192,19 @@ func run(c Case) (res ev.Result) {
 	// an unrelated, damaged event is decoded first (a text and a data event that announce more
 	// bytes than they carry): what the accessors do with it is not this property's business, but
 	// it must leave nothing behind that shows up in the next, well-formed event
-	ev.Try(func() {
-		var junk string
-		var jb []byte
-		var n uint8
-		smf.Message{0xFF, 0x01, 0x09, 'o', 'o', 'p', 's'}.GetMetaText(&junk)
-		smf.Message{0xFF, 0x05, 0x81, 0x00, 'l', 'a'}.GetMetaLyric(&junk)
-		smf.Message{0xFF, 0x7F, 0x09, 1, 2, 3}.GetMetaSeqData(&jb)
-		smf.Message{0xFF, 0x58, 0x04, 3}.GetMetaMeter(&n, &n)
-		_ = smf.Message{0xFF, 0x03, 0x7F, 'x'}.String()
-	})
+	damaged := func() {
+		ev.Try(func() {
+			var junk string
+			var jb []byte
+			var n uint8
+			smf.Message{0xFF, 0x01, 0x09, 'o', 'o', 'p', 's'}.GetMetaText(&junk)
+			smf.Message{0xFF, 0x05, 0x81, 0x00, 'l', 'a'}.GetMetaLyric(&junk)
+			smf.Message{0xFF, 0x7F, 0x09, 1, 2, 3}.GetMetaSeqData(&jb)
+			smf.Message{0xFF, 0x58, 0x04, 3}.GetMetaMeter(&n, &n)
+			_ = smf.Message{0xFF, 0x03, 0x7F, 'x'}.String()
+		})
+	}
+	damaged()
 	// the caller owns a message it got and may append to it: build the same message once, append
 	// to it, and only then build the message under test
 	ev.Try(func() {
@@ -278,7 +281,9 @@ func run(c Case) (res ev.Result) {
 		res.Violation = fmt.Sprintf("Meta%s (% X): accepted by accessors %v, want exactly [%s]", c.Kind, clip(m), acc, wantAccessor)
 		return
 	}
-	// 3. the accessor returns the arguments
+	// 3. the accessor returns the arguments (directly after a damaged event was decoded: the
+	// accessor calls of step 2 would otherwise have cleaned up whatever that left behind)
+	damaged()
 	if p := ev.Try(func() { res.Violation = c.inverse(m) }); p != "" {
 		res.Violation = "accessor: " + p
 	}
